@@ -22,6 +22,10 @@ def x_obligations(tier):
                     o.append(Obl(f"C15-step[{op},{sid},stored#{k1}{v1},second#{wk2}{wv2},{cfg}]", M, "step",
                                  env={"VF_OP": op, "VF_SI": str(si), "VF_K1": str(k1), "VF_V1": str(v1), "VF_WK2": str(wk2), "VF_WV2": str(wv2), "VF_CONFIG": cfg}, timeout=T, family="C15-step",
                                  bound="pre-state: entity present/absent x side-car absent/holding one pair; written pair chosen by the solver from 3 keys x 6 values (incl. 'sid', None, int, non-ASCII)"))
+    if tier == "quick":      # a Writer of the NON-default path configuration (thorough runs every operation on both)
+        for op, si in (("update", 0), ("set", 3)):
+            o.append(Obl(f"C15-step[{op},{SIDS[si]},stored#02,second#13,server]", M, "step", env={"VF_OP": op, "VF_SI": str(si), "VF_K1": "0", "VF_V1": "2", "VF_WK2": "1", "VF_WV2": "3", "VF_CONFIG": "server"},
+                         timeout=T, family="C15-step", bound="as C15-step, WriteToPaths('server') / GetFromPaths('server')"))
     o.append(Obl("C15-sidecar-kernel", M, "sidecar_kernel", timeout=T, family="C15-sidecar", bound="8 x 8 names with dots at every position, real pathlib"))
     o.append(Obl("C15-sidecar-kernel[shipped]", M, "sidecar_kernel", env={"VF_CONF": "shipped"}, timeout=T, family="C15-sidecar", bound="the shipped spil_data_conf.get_data_json_path, 8 x 8 names, real pathlib"))
     for conf, pool in [("miniA", "h/a/x;h/s/q1;h/a/x/v1/m;h/s/q1/v1/o/c;h/a/x/v1"),
